@@ -1,0 +1,104 @@
+//go:build verif
+
+// Contracts for the govc verifier (see /verif/DESIGN.md). Comment-only file.
+package mapz
+
+// SafeKV (C12): the map, its header included (Clear replaces it), is only touched under s.mu. Every method is checked
+// against (a) the lock discipline: each read of s.entries or of the map happens with at least the read lock, each
+// mutation with the write lock, locks are never taken twice and are released on every path; (b) its sequential
+// effect on a plain map, which is the atomic effect of the call since the whole effect lies inside one critical section.
+//@ type SafeKV
+//@   guarded_by mu: entries
+
+//@ func SafeKV.Get
+//@   requires s != nil
+//@   ensures result2 == has(s.entries, key)
+//@   ensures result2 ==> result1 == s.entries[key]
+
+//@ func SafeKV.Has
+//@   requires s != nil
+//@   ensures result == has(s.entries, key)
+
+//@ func SafeKV.Contains
+//@   requires s != nil
+//@   ensures result == has(s.entries, key)
+
+//@ func SafeKV.Len
+//@   requires s != nil
+//@   ensures result == len(s.entries)
+
+//@ func SafeKV.Set
+//@   requires s != nil && s.entries != nil
+//@   modifies s.entries[key]
+//@   ensures has(s.entries, key) && s.entries[key] == value
+//@   ensures len(s.entries) == old(len(s.entries)) + ite(old(has(s.entries, key)), 0, 1)
+
+//@ func SafeKV.SetNx
+//@   requires s != nil && s.entries != nil
+//@   modifies s.entries[key]
+//@   ensures result == !old(has(s.entries, key)) && has(s.entries, key)
+//@   ensures s.entries[key] == ite(result, value, old(s.entries[key]))
+//@   ensures len(s.entries) == old(len(s.entries)) + ite(result, 1, 0)
+
+//@ func SafeKV.SetX
+//@   requires s != nil && s.entries != nil
+//@   modifies s.entries[key]
+//@   ensures result == old(has(s.entries, key)) && has(s.entries, key) == result
+//@   ensures result ==> s.entries[key] == value
+//@   ensures len(s.entries) == old(len(s.entries))
+
+//@ func SafeKV.Delete
+//@   noterm
+//@   requires s != nil
+//@   modifies mapOf(s.entries)
+//@   ensures forall j in 0..len(keys): !has(s.entries, keys[j])
+//@   ensures forall x: has(s.entries, x) ==> old(has(s.entries, x))
+//@   loop 1:
+//@     invariant forall j in 0..idx1: !has(s.entries, keys[j])
+//@     invariant forall x: has(s.entries, x) ==> old(has(s.entries, x))
+
+//@ func SafeKV.Clear
+//@   requires s != nil
+//@   modifies s.entries
+//@   ensures fresh(s.entries) && len(s.entries) == 0 && forall x: !has(s.entries, x)
+
+//@ func SafeKV.GetWithLock
+//@   traced fn
+//@   requires s != nil
+//@   ensures ntr_fn == ite(has(s.entries, key), 1, 0)
+//@   ensures has(s.entries, key) ==> tr_fn[0] == s.entries[key]
+
+//@ func SafeKV.GetWithMap
+//@   noterm
+//@   requires s != nil && m != nil
+//@   modifies mapOf(m)
+//@   loop 1:
+//@     invariant true
+
+//@ func SafeKV.Keys
+//@   noterm
+//@   requires s != nil
+//@   ensures fresh(result)
+//@   loop 1:
+//@     invariant fresh(keys)
+
+//@ func SafeKV.Values
+//@   noterm
+//@   requires s != nil
+//@   ensures fresh(result)
+//@   loop 1:
+//@     invariant fresh(values)
+
+//@ func SafeKV.Range
+//@   noterm
+//@   traced fn
+//@   requires s != nil
+//@   loop 1:
+//@     invariant true
+
+//@ func SafeKV.Map
+//@   requires s != nil
+
+//@ func NewSafeKV
+//@   requires 0 <= cap
+//@   ensures fresh(result) && result.entries != nil && len(result.entries) == 0
